@@ -290,6 +290,33 @@ impl<'a> Toks<'a> {
   }
 }
 
+/// like `run_stream_keep`, and additionally copies every borrowed piece at delivery time, calls `at_chunk` in each
+/// chunk callback (a scheduling point for C18/C19), and after the stream call has returned compares what the kept
+/// borrows show now with the copies: a difference means the borrowed data did not outlive the borrow
+pub fn run_stream_keep_checked(s: &dyn Source, columns: bool, fin: bool, at_chunk: &dyn Fn()) -> (SRes, Option<String>) {
+  enum Kept<'a> { Chunk(Option<Rope<'a>>, MapT), Source(u32, std::borrow::Cow<'a, str>, Option<Rope<'a>>), Name(u32, std::borrow::Cow<'a, str>) }
+  let kept = std::cell::RefCell::new(Vec::new());
+  let copies: std::cell::RefCell<Vec<Vec<u8>>> = std::cell::RefCell::new(Vec::new());
+  let info = s.stream_chunks(
+    &verif::map_options(columns, fin),
+    &mut |c, m| { copies.borrow_mut().push(c.as_ref().map(|c| c.to_bytes().to_vec()).unwrap_or_default()); kept.borrow_mut().push(Kept::Chunk(c, MapT::of(&m))); at_chunk(); },
+    &mut |i, s, c| { let mut v = s.as_bytes().to_vec(); v.push(0); if let Some(c) = &c { v.extend_from_slice(&c.to_bytes()); } copies.borrow_mut().push(v); kept.borrow_mut().push(Kept::Source(i, s, c)); },
+    &mut |i, n| { copies.borrow_mut().push(n.as_bytes().to_vec()); kept.borrow_mut().push(Kept::Name(i, n)); },
+  );
+  let mut bad = None;
+  let evs: Vec<Ev> = kept.into_inner().into_iter().zip(copies.into_inner()).enumerate().map(|(k, (kp, copy))| {
+    let (ev, now) = match kp {
+      Kept::Chunk(c, m) => { let b = c.map(|c| c.to_bytes().to_vec()); let now = b.clone().unwrap_or_default(); (Ev::Chunk(b, m), now) }
+      Kept::Source(i, s, c) => { let cb = c.map(|c| c.to_bytes().to_vec()); let mut now = s.as_bytes().to_vec(); now.push(0); if let Some(c) = &cb { now.extend_from_slice(c); } (Ev::Source(i, s.as_bytes().to_vec(), cb), now) }
+      Kept::Name(i, n) => (Ev::Name(i, n.as_bytes().to_vec()), n.as_bytes().to_vec()),
+    };
+    if now != copy && bad.is_none() { bad = Some(format!("event #{k}: borrowed bytes read {} when delivered and {} after the stream call returned", hx(&copy), hx(&now))); }
+    if std::str::from_utf8(&now).is_err() && bad.is_none() { bad = Some(format!("event #{k}: kept str is not valid UTF-8: {}", hx(&now))); }
+    ev
+  }).collect();
+  (SRes { line: info.generated_line, col: info.generated_column, evs }, bad)
+}
+
 /// like `run_stream`, but the callbacks keep the borrowed chunks, names and contents until the stream call has returned (C19)
 pub fn run_stream_keep(s: &dyn Source, columns: bool, fin: bool) -> SRes {
   enum Kept<'a> { Chunk(Option<Rope<'a>>, MapT), Source(u32, std::borrow::Cow<'a, str>, Option<Rope<'a>>), Name(u32, std::borrow::Cow<'a, str>) }
@@ -308,3 +335,14 @@ pub fn run_stream_keep(s: &dyn Source, columns: bool, fin: bool) -> SRes {
   }).collect();
   SRes { line: info.generated_line, col: info.generated_column, evs }
 }
+
+
+/// where the case being executed is recorded (so that a crash of the whole process — segfault, abort — still names its input)
+pub static INFLIGHT: std::sync::Mutex<Option<String>> = std::sync::Mutex::new(None);
+pub fn inflight(f: impl FnOnce() -> serde_json::Value) {
+  let g = INFLIGHT.lock().unwrap_or_else(|e| e.into_inner());
+  if let Some(p) = g.as_ref() { let _ = std::fs::write(p, f().to_string()); }
+}
+
+/// char-boundary-safe prefix
+pub fn trunc(s: &str, n: usize) -> String { s.chars().take(n).collect() }
